@@ -1,5 +1,7 @@
 import GrmVerif.Model.AnalysesRef
 import GrmVerif.Model.FirstsFollowsImpl
+import GrmVerif.Model.CostsImpl
+import GrmVerif.Lemmas.MinSentenceTerm
 import GrmVerif.Model.Recog
 import GrmVerif.Drive.Util
 /-!
@@ -146,6 +148,48 @@ def modelLine (G : Grammar) : String :=
       let follow := rules.flatMap (fun r => toks.map (fun t => Impl.mget w r t))
       s!"Mf eps {bitsOf eps} first {bitsOf first} follow {bitsOf follow}"
 
+def showOutcomeBit : Impl.Outcome Bool → String
+  | .done true => "1"
+  | .done false => "0"
+  | .panic => "P"
+  | .fuelOut => "H"
+
+def showSent (w : List Nat) : String := "[" ++ ",".intercalate (w.map toString) ++ "]"
+
+/-- the `Mc` line: `has_path` bits, `rule_min_costs`, `rule_max_costs` (as `max_sentence_cost` reports
+them) and `min_sentence` of every rule as computed by the models of `Model/CostsImpl.lean`, each run with
+the fuel the theorems of `Props/C17.lean` prove sufficient; `dbg = true` because the harness builds
+cfgrammar with its debug assertions on -/
+def costModelLine (G : Grammar) (tc : List Nat) : String :=
+  let rules := List.range G.nrules
+  let path := String.join (rules.flatMap (fun a => rules.map (fun b =>
+    showOutcomeBit (Impl.hasPath G a b (Impl.hasPathFuel G)))))
+  let mcO := Impl.ruleMinCosts G tc (Impl.minCostsFuel G)
+  let minc := match mcO with
+    | .done v => " ".intercalate (v.map toString)
+    | .panic => " ".intercalate (rules.map (fun _ => "P"))
+    | .fuelOut => " ".intercalate (rules.map (fun _ => "H"))
+  let maxc := match Impl.ruleMaxCosts G tc true (Impl.maxCostsFuel G) with
+    | .done v => " ".intercalate (v.map (fun x => if x = Impl.U16MAX then "N" else toString x))
+    | .panic => " ".intercalate (rules.map (fun _ => "P"))
+    | .fuelOut => " ".intercalate (rules.map (fun _ => "H"))
+  -- `min_sentence_impl_terminates_iff`: when `tightInf` holds the model runs out of every fuel (`H` without
+  -- running it), otherwise `minSentenceFuel` iterations suffice
+  let sentOf (mc : Option (List Nat)) (r : Nat) : String :=
+    if mc.isSome && Impl.tightInf G tc mc r then "H" else
+    match Impl.minSentenceWith G tc mc r (Impl.minSentenceFuel G) with
+    | .done w => showSent w
+    | .panic => "P"
+    | .fuelOut => "H"
+  -- the harness first asks `min_sentence_cost(r)`: `u16::MAX` = no sentence to generate (`U`); if that
+  -- call panics it still asks for the sentence (`rule_min_costs` is only run when a cost is needed)
+  let sent := match mcO with
+    | .done mc => " ".intercalate (rules.map (fun r =>
+        if mc.getD r 0 = Impl.U16MAX then "U" else sentOf (some mc) r))
+    | .panic => " ".intercalate (rules.map (sentOf none))
+    | .fuelOut => " ".intercalate (rules.map (fun _ => "H"))
+  s!"Mc path {path} mincost {minc} maxcost {maxc} minsent {sent}"
+
 def handle (args : List Nat) : String :=
   match parseGrammar args with
   | none => "bad-request"
@@ -178,7 +222,7 @@ def handle (args : List Nat) : String :=
           | none => rules.map (fun _ => false)
           | some R => rules.map (fun b => R.contains b))
         s!"S eps {bitsOf eps} first {bitsOf first} follow {bitsOf follow} path {bitsOf path}"
-    let sLine := sLine ++ "\n" ++ modelLine G
+    let sLine := sLine ++ "\n" ++ modelLine G ++ "\n" ++ costModelLine G costs
     -- costs
     match minCosts G tc with
     | none => sLine ++ "\nV fail reference minimal costs: fuel exhausted"
@@ -191,6 +235,11 @@ def handle (args : List Nat) : String :=
       let tightTbl := (List.range G.nprods).map (fun p => seqCost tc (look c) (G.rhs p) == look c (G.lhs p))
       let tight : Nat → Bool := fun p => tightTbl.getD p false
       let anyProd : Nat → Bool := fun _ => true
+      -- every minimal cost fits a `u16`, yet the model of `rule_min_costs` panics (a sum overflows)
+      let minAllFit := c.all (fun o => match o with | some v => v < Impl.U16MAX | none => true)
+      let modelMinPanics := match Impl.ruleMinCosts G costs (Impl.minCostsFuel G) with
+        | .panic => true
+        | _ => false
       let minV := rules.filterMap (fun r =>
         let a := minI.getD r HUNG
         match look c r with
@@ -199,6 +248,8 @@ def handle (args : List Nat) : String :=
           if a == HUNG then some s!"V fail mincost-hang rule={r} true={v}"
           else if a == PANIC then
             some (if anyUnprod then s!"V fail mincost-panic-unproductive-elsewhere rule={r} true={v}"
+                  else if minAllFit && modelMinPanics then
+                    s!"V fail mincost-overflow-dearer-production rule={r} true={v}"
                   else s!"V fail mincost-panic rule={r} true={v}")
           else if a != v then some s!"V fail mincost-wrong rule={r} impl={a} true={v}"
           else none)
@@ -257,6 +308,8 @@ def handle (args : List Nat) : String :=
           else some (if a == HUNG then
                   (if tightCycle G tc (look c) true r then s!"V fail minsent-hang-tight-cycle rule={r}"
                    else s!"V fail minsent-hang rule={r}")
+                else if minAllFit && modelMinPanics then
+                  s!"V fail mincost-overflow-dearer-production rule={r} true={v} (min_sentence asks for a cost)"
                 else s!"V fail minsent-panic rule={r}")
         | some v, .inr w =>
           if costOf tc w != v then some s!"V fail minsent-cost rule={r} sentence={w} cost={costOf tc w} min={v}"
@@ -271,6 +324,8 @@ def handle (args : List Nat) : String :=
           else some (if a == HUNG then
                   (if tightCycle G tc (look c) false r then s!"V fail minsents-hang-tight-cycle rule={r}"
                    else s!"V fail minsents-hang rule={r}")
+                else if minAllFit && modelMinPanics then
+                  s!"V fail mincost-overflow-dearer-production rule={r} true={v} (min_sentences asks for a cost)"
                 else s!"V fail minsents-panic rule={r}")
         | some v, .inr ws =>
           if ws.isEmpty then some s!"V fail minsents-empty rule={r}"
